@@ -80,6 +80,33 @@ def build_harness():
         return True, ""
 
 
+CLI_TARGET = os.path.join(WORK, "target_cli")
+CLI_BIN = os.path.join(CLI_TARGET, "debug", "scc")
+
+
+def build_cli():
+    """cargo build of the REAL command-line binary `scc` from /repo's current working tree (own target dir
+    under /verif/work, /repo is not written)."""
+    with Lock("cargo-cli"):
+        env = dict(ENV)
+        env["CARGO_TARGET_DIR"] = CLI_TARGET
+        env["CARGO_NET_OFFLINE"] = "true"
+        p = subprocess.run(["cargo", "build", "--offline", "-q", "-p", "scc"], cwd=REPO, env=env, capture_output=True, text=True)
+        if p.returncode != 0:
+            return False, (p.stdout + p.stderr)[-3000:]
+        return os.path.exists(CLI_BIN), ""
+
+
+def run_cli(args, cwd=None, timeout=60):
+    """-> (exit status or 'signal:<n>' / 'timeout', stdout bytes, stderr text)"""
+    try:
+        p = subprocess.run([CLI_BIN, "--no-color"] + args, cwd=cwd or WORK, capture_output=True, timeout=timeout, env=ENV)
+    except subprocess.TimeoutExpired:
+        return "timeout", b"", ""
+    st = p.returncode if p.returncode >= 0 else "signal:%d" % (-p.returncode)
+    return st, p.stdout, p.stderr.decode(errors="replace")
+
+
 def write_if_changed(path, text):
     os.makedirs(os.path.dirname(path), exist_ok=True)
     try:
